@@ -70,9 +70,17 @@ CONFIG = {
         "assumptions": ["placements within the stated margins of a cell boundary are excluded"],
     },
     "C14": {
-        "level": "exploration", "proof": False, "rtc": True,
-        "explanation": "Bounded end-to-end run of the real writer -> reader -> SQRA -> DecompositionTool pipeline on small grids against "
-                       "the closed formula and a dense eigen-solver.",
+        "level": "other", "proof": True, "rtc": True, "lean": ["lemmas/C14Stationary.lean"],
+        "explanation": "C14 is a lemma over contracts. Proved: writer->reader wiring (each load_X after save_X returns exactly the "
+                       "corresponding FullGrid getter's value: value, pattern, entry order by the round-trip contract), C01's entry "
+                       "formula lemmas (detailed balance w.r.t. V_i exp(-E_i/RT) on a symmetric pattern), DecompositionTool."
+                       "get_decomposition (left eigenvectors requested via the transpose, solver settings passed through, eigenvalues "
+                       "returned descending, eigenpairs kept together); stationarity pi Q = 0 from detailed balance and zero row sums "
+                       "is proved in Lean/Mathlib for all n (thorough tier) and for two cells in SMT. Bounded: the real pipeline end to "
+                       "end on small grids against a dense eigen-solver.",
+        "trusted_base": [SCIPY_SPARSE, NUMPY, "np.save/np.load and save_npz/load_npz round trip (assumed)", "scipy.sparse.linalg.eigs returns "
+                         "eigenpairs of the matrix it is given (assumed; nothing about ARPACK is proved)", "argsort returns an ascending permutation",
+                         "C02's post-condition (one symmetric pattern and stored order for borders/distances) is assumed here and checked bounded under C02"],
         "assumptions": ["ARPACK and LAPACK results are compared numerically, nothing about them is proved"],
     },
     "C15": {
@@ -83,10 +91,14 @@ CONFIG = {
                         "the band edge are listed as uncertain, not failed"],
     },
     "C20": {
-        "level": "exploration", "proof": False, "rtc": True,
-        "explanation": "Bounded run-time contract: real GridWriter/GridReader round trips compared bitwise (values, pattern, entry order) and "
-                       "generated GROMACS xvg / csv energy tables over the stated header shapes, cell by cell.",
-        "assumptions": ["pandas.read_csv semantics are exercised, not proved"],
+        "level": "other", "proof": True, "rtc": True,
+        "explanation": "Proved: writer/reader wiring for the five artefacts (load_X after save_X returns the value of exactly the "
+                       "corresponding getter; one file written) under the round-trip contract of np.save/np.load and "
+                       "save_npz/load_npz. Bounded: real round trips compared bitwise (values, pattern, entry order) and generated "
+                       "GROMACS xvg / csv energy tables over the stated header shapes, cell by cell.",
+        "trusted_base": ["np.save/np.load and scipy.sparse.save_npz/load_npz round trip: value, format, indices/indptr/data (assumed)",
+                         "pandas.read_csv semantics (exercised bounded, not proved)"],
+        "assumptions": ["EnergyReader._get_column_names / load_energy are checked bounded only"],
     },
 }
 
